@@ -33,7 +33,7 @@ def Err.str : Err → String
   | .dh => "err:other"
 
 /-- aes.BlockSize -/
-def blockSize : Nat := 16
+abbrev blockSize : Nat := 16
 
 /-! ## PKCS7 -/
 
